@@ -163,6 +163,16 @@ package hrpc
 //@   requires forall(f, haskey(m.values, f) ==> strlen(f) <= 255)
 //@   requires forall(f, q, haskey(m.values, f) && haskey(m.values[f], q), strlen(q) + len(m.values[f][q]) < 2147000000)
 //@   requires emptyQualifier != nil && forall(q, haskey(emptyQualifier, q) ==> strlen(q) == 0 && len(emptyQualifier[q]) == 0)
+// The buffer is sized by one pass over the values and filled by a second one; both passes must count the same cells
+// (sums over the map iterations, in whatever order each pass enumerates): the `cellblocks len mismatch` panic is
+// unreachable. A nil inner map stands for the single empty qualifier for deletes only - in both passes (finding F15).
+// (the buffer capacity is the total size of the cells: within the address space)
+//@   requires mapsum(m.values, f, mapsum(ite(m.mutationType == 3 && m.values[f] == nil, emptyQualifier, m.values[f]), q, 24 + len(m.key) + strlen(f) + strlen(q) + len(ite(m.mutationType == 3 && m.values[f] == nil, emptyQualifier, m.values[f])[q]))) <= 281474976710656
+//@   panics never[C10]
+//@   loop 1 invariant[C10] cbsLen >= 0 && cbsLen == sumvisited(f, mapsum(ite(m.mutationType == 3 && m.values[f] == nil, emptyQualifier, m.values[f]), q, 24 + len(m.key) + strlen(f) + strlen(q) + len(ite(m.mutationType == 3 && m.values[f] == nil, emptyQualifier, m.values[f])[q])))
+//@   loop 2 invariant[C10] cbsLen >= atentry(2, cbsLen) && cbsLen == atentry(2, cbsLen) + sumvisited(q, 24 + len(m.key) + strlen(family) + strlen(q) + len(v[q]))
+//@   loop 3 invariant[C10] len(cbs) == sumvisited(f, mapsum(ite(m.mutationType == 3 && m.values[f] == nil, emptyQualifier, m.values[f]), q, 24 + len(m.key) + strlen(f) + strlen(q) + len(ite(m.mutationType == 3 && m.values[f] == nil, emptyQualifier, m.values[f])[q])))
+//@   loop 4 invariant[C10] len(cbs) == atentry(4, len(cbs)) + sumvisited(q, 24 + len(m.key) + strlen(family) + strlen(q) + len(v[q]))
 //@   at call appendCellblock#1 assert[C10] mt == kvTypeOfMutation(m.mutationType == 3, len(m.values[family]) == 0, m.deleteOneVersion)
 //@   at call appendCellblock#1 assert[C10] ts == ite(m.timestamp == 18446744073709551615, 9223372036854775807, m.timestamp)
 //@   at call appendCellblock#1 assert[C10] haskey(ite(m.mutationType == 3 && m.values[family] == nil, emptyQualifier, m.values[family]), k1)
